@@ -145,8 +145,20 @@ def observe(case):
             return None
         return int(r)
     raw = c["raw"]
+    # conversions of other values first: the result for `raw` must not depend on what the signal object converted before
+    lo0, hi0 = s.calculate_raw_range()
+    for other in (int(lo0), int(hi0), raw + 1 if raw + 1 <= int(hi0) else raw - 1):
+        try:
+            s.phys2raw(s.raw2phys(other))
+            s.raw2phys(other, decode_to_str=True)
+        except Exception:  # noqa
+            pass
     phys = s.raw2phys(raw)
     named = cm.DecodedSignal(raw, s).named_value
+    # the two ways to a named value (DecodedSignal.named_value, raw2phys(decode_to_str=True)) agree
+    named2 = s.raw2phys(raw, decode_to_str=True)
+    if isinstance(named, str) != isinstance(named2, str) or (isinstance(named, str) and named != named2):
+        named = "<named_value and raw2phys(decode_to_str=True) disagree: %r / %r>" % (named, named2)
     lo, hi = s.calculate_raw_range()
     return {"phys": tri(phys), "back": int(s.phys2raw(phys)), "named": named if isinstance(named, str) else tri(named),
             "min": tri(s.min), "max": tri(s.max), "range": [int(lo), int(hi)]}
